@@ -81,6 +81,32 @@ def helper_set(j):
         return out
     callees = {p_: direct_callees(b_) for p_, b_ in bodies.items()}
     lvl0 = {p_ for p_, cs in callees.items() if any(ANCHOR_PRIMS.search(c) for c in cs)}
+    # ... also through its own closures and through private helpers (both are read as part of the function itself)
+    closure_parent = {b_["path"]: b_.get("parent_fn") for b_ in j["bodies"] if b_["kind"] == "Closure" and b_["promoted"] is None}
+    closure_prims = set()
+    for b_ in j["bodies"]:
+        if b_["kind"] == "Closure" and b_["promoted"] is None and any(ANCHOR_PRIMS.search(c) for c in direct_callees(b_)):
+            closure_prims.add(b_["path"])
+    grew = True
+    while grew:
+        grew = False
+        for cp in list(closure_prims):
+            par = closure_parent.get(cp)
+            if par in closure_parent and par not in closure_prims:
+                closure_prims.add(par)
+                grew = True
+            elif par in bodies and par not in lvl0:
+                lvl0.add(par)
+                grew = True
+        for p_, cs in callees.items():
+            if p_ in lvl0:
+                continue
+            for c in cs:
+                fc = fns.get(c)
+                if c in lvl0 and fc is not None and fc["vis"].startswith("in ") and not c.startswith("<"):
+                    lvl0.add(p_)
+                    grew = True
+                    break
     lvl1 = {p_ for p_, cs in callees.items() if cs & lvl0}
     lvl2 = {p_ for p_, cs in callees.items() if cs & lvl1}
     # ... except a thin forwarder: one crate callee, straight-line (a `rearm(i)` that only calls the ready-queue's `push(i)`)
@@ -100,7 +126,8 @@ def helper_set(j):
     lvl1 = {p_ for p_ in lvl1 if p_ in lvl0 or not thin(p_)}
     lvl2 = {p_ for p_, cs in callees.items() if cs & lvl1}
     interface = lvl0 | lvl1 | lvl2
-    private_traits = {f_["trait_decl"] for f_ in j["fns"] if f_.get("trait_decl") and f_["vis"].startswith("in ")}
+    private_traits = {f_["trait_decl"] for f_ in j["fns"] if f_.get("trait_decl") and not f_.get("effective_pub") and
+                      (f_["vis"].startswith("in ") or f_["vis"] == "crate")}
     private_trait_impl_methods = set()
     for im in j["impls"]:
         if im.get("trait") in private_traits and not im.get("negative"):
@@ -118,8 +145,10 @@ def helper_set(j):
             continue           # trait impl method (those of a crate-private trait are shared helpers reached by static dispatch)
         if "::_::" in path:
             continue           # pin-project-lite generated code
-        if path in taken:
-            continue
+        if path in taken and f.get("impl") is None:
+            continue           # a free function whose address is taken (the waker vtable's entries) keeps its body; a private
+                               # METHOD that is also handed out as a function item (`find_map(Slot::occupied_mut)`) is still read
+                               # through where it is called directly
         calls_prim = False
         recursive = False
         for blk in b["blocks"]:
